@@ -1071,7 +1071,7 @@ def bnd_parse(units, R):
             k = reqs[fn.name].get(i, 0)
             R.note('BND: %s assumes %d readable byte(s) at %s on entry (checked at every call site)' % (fn.name, k, name))
     R.floor('BND1', 'functions in the parse family', len(fam), 9)
-    R.floor('BND1', 'input reads and call-site requirements', nreads, 45)
+    R.floor('BND1', 'input reads and call-site requirements', nreads, 35)
     return reqs
 
 
